@@ -6,7 +6,7 @@
    does not match the empty input never reports a zero-length match (the scan loops always consume
    input).  Partial: that last clause for variable-length repeats, back-references and the
    optimised search paths. *)
-From RX Require Import Base.Prelude Model.Op Model.Engine Model.Matcher Model.Compiler Model.Api Proofs.SmallFacts Proofs.EngineFacts Proofs.NullableFacts.
+From RX Require Import Base.Prelude Model.Op Model.Engine Model.Matcher Model.Compiler Model.Api Proofs.SmallFacts Proofs.EngineFacts Proofs.NullableFacts Spec.Syntax Spec.Sem Spec.Parse Proofs.GroupGrammar Proofs.GroupSpec.
 
 Theorem C16_replace_guard :
   forall re s r, replace_all re s r = Err EMatchesEmpty <-> r_nullable re = true.
@@ -45,9 +45,26 @@ Theorem C16_no_zero_length_match_fragment_partial :
       exists k q, i <= k /\ k < q /\ q <= length input /\ get_pend s' 0 = Some q.
 Proof. exact no_zero_length_match. Qed.
 
+(* what the guards test is the right thing: on the grammar of Proofs/GroupGrammar.v, from the pattern
+   and flag strings, the flag Regex::new computes equals "the specification's language contains the
+   empty string" - with the three guard theorems above, replace_all / tokenize / analyze are refused
+   exactly for the regexes the specification says match the zero-length string *)
+Theorem C16_group_grammar_nullable_exact :
+  forall xpath a fls,
+    ok_a xpath a = true -> existsb (N.eqb 59) fls = false ->
+    match spec_flags xpath fls with
+    | Valid sf =>
+        s_q sf = false -> s_x sf = false ->
+        exists re r, regex_new true xpath (show_a a) fls = Ok re /\ spec_parse xpath (show_a a) = Valid r
+                     /\ r_nullable re = spec_is_match sf [] r
+    | _ => True
+    end.
+Proof. exact grammar_nullable_exact. Qed.
+
 Print Assumptions C16_replace_guard.
 Print Assumptions C16_analyze_guard.
 Print Assumptions C16_tokenize_guard.
 Print Assumptions C16_tokenize_empty_input.
 Print Assumptions C16_nullable_is_match_on_empty.
 Print Assumptions C16_no_zero_length_match_fragment_partial.
+Print Assumptions C16_group_grammar_nullable_exact.
